@@ -8,8 +8,7 @@ PYTHONPATH="$HERE" PYTHONDONTWRITEBYTECODE=1 /venv/bin/python - <<'PY'
 import glob, importlib, json, os, subprocess, sys
 rc = 0
 from harness import tlc, vloop, simnet, core, simserver  # noqa
-for frag in sorted(glob.glob('manifest.d/C*.json')):
-    d = json.load(open(frag))
+for d in json.load(open('MANIFEST.json'))['checks']:
     pid = d['property_id']
     try:
         importlib.import_module('harness.props.' + pid.lower())
